@@ -558,13 +558,16 @@ func valueEscapes(v ssa.Value, seen map[ssa.Value]bool, depth int) bool {
 		case *ssa.MakeClosure:
 			// captured: fine if the closure is only ever called directly and the captured variable
 			// does not escape inside the closure either
-			if closureEscapes(x, seen, depth+1) {
-				return true
-			}
+			esc := closureEscapes(x, seen, depth+1)
 			fn := x.Fn.(*ssa.Function)
 			for i, b := range x.Bindings {
 				if b == v && i < len(fn.FreeVars) {
 					if valueEscapes(fn.FreeVars[i], seen, depth+1) {
+						return true
+					}
+					// a closure that escapes (stored, passed on, run as goroutine) may run at any
+					// time: the variable stays private only if that closure never assigns it
+					if esc && freeVarWritten(fn.FreeVars[i], 0) {
 						return true
 					}
 				}
